@@ -177,6 +177,11 @@ class NPFacade(types.ModuleType):
             return _elementwise(_sign1, a)
         return np.sign(a)
 
+    def isclose(self, a, b, rtol=1e-05, atol=1e-08, equal_nan=False):
+        if has_sym(a) or has_sym(b):
+            return _elementwise(lambda x, y: abs(x - y) <= atol + rtol * abs(y), a, b)
+        return np.isclose(a, b, rtol=rtol, atol=atol, equal_nan=equal_nan)
+
     def where(self, *args):
         if len(args) == 3 and (has_sym(args[0]) or has_sym(args[1]) or has_sym(args[2])):
             return _elementwise(lambda c, x, y: x if bool(c) else y, *args)
@@ -207,6 +212,8 @@ def selftest(seed=0):
         (f.fabs(a), np.fabs(a)),
         (f.sign(a), np.sign(a)),
         (f.where(a > 0, a, -a), np.where(a > 0, a, -a)),
+        (f.isclose(a, a + 1e-9), np.isclose(a, a + 1e-9)),
+        (np.asarray(_elementwise(lambda x, y: abs(x - y) <= 1e-8 + 1e-5 * abs(y), a, a * (1 + 1e-4)), dtype=bool), np.isclose(a, a * (1 + 1e-4))),
         (_elementwise(_power1, p, 3.0).astype(float), np.power(p, 3.0)),
         (_boolify(_elementwise(_isfinite1, special)), np.isfinite(special)),
     ]
